@@ -5,6 +5,7 @@ import Driver.Sign
 import Driver.Fetch
 import Driver.Codec
 import Driver.Conc
+import Driver.Crash
 /-! `modeldriver <stream>`: reads a trace on stdin, replays it on the model, prints DIFF / SPEC lines
 and a final `SUMMARY` line with the counts of comparisons and predicate evaluations. -/
 open Driver
@@ -65,6 +66,14 @@ partial def concLoop (h : IO.FS.Stream) (s : CSt) : IO CSt := do
   for m in s.out do IO.println m
   concLoop h { s with out := #[] }
 
+partial def crashLoop (h : IO.FS.Stream) (s : KSt) : IO KSt := do
+  let line ← h.getLine
+  if line.isEmpty then return s
+  let line := if line.back == '\n' then (line.dropEnd 1).toString else line
+  let s := handleCrash s line
+  for m in s.out do IO.println m
+  crashLoop h { s with out := #[] }
+
 def main (args : List String) : IO UInt32 := do
   let stdin ← IO.getStdin
   match args with
@@ -102,6 +111,13 @@ def main (args : List String) : IO UInt32 := do
     return 0
   | ["conc"] =>
     let s ← concLoop stdin {}
+    let cs := s.checks.toList.map (fun (k, v) => s!"{k}={v}")
+    IO.println s!"SUMMARY lines={s.lineNo} diffs={s.diffs} specfails={s.specFails} {" ".intercalate cs}"
+    return 0
+  | ["crash"] =>
+    let s ← crashLoop stdin {}
+    let s := s.finishCase
+    for m in s.out do IO.println m
     let cs := s.checks.toList.map (fun (k, v) => s!"{k}={v}")
     IO.println s!"SUMMARY lines={s.lineNo} diffs={s.diffs} specfails={s.specFails} {" ".intercalate cs}"
     return 0
